@@ -8,6 +8,7 @@ package reqsim
 
 import (
 	"bytes"
+	"math"
 	"encoding/json"
 	"errors"
 	"fmt"
@@ -44,6 +45,7 @@ type Scenario struct {
 	Rt        string            `json:"rt"`
 	Ap        map[string]string `json:"ap"`
 	Nl        int               `json:"nl"`
+	Lpanic    int               `json:"lpanic"` // index of the listener that panics (0: none)
 	Script    []string          `json:"script"`
 	PubFail   bool              `json:"pubfail"` // the connection refuses to publish resource events
 	Pollute   bool              `json:"pollute"` // a request with a mistyped payload is processed first
@@ -62,12 +64,17 @@ type runner struct {
 	loggedE map[string]bool
 }
 
-var nameVariants = []struct{ pattern, name, id string }{
-	{"res", "test.res", ""},
-	{"item.$id", "test.item.42", "42"},
-	{"item.$id", "test.item.get", "get"},
-	{"deep.$id.sub", "test.deep.call.sub", "call"},
-	{"item.$id", "test.item.new", "new"},
+var nameVariants = []struct {
+	pattern, name, id, ptype string
+	mount                    bool // a sub-mux is mounted at "users": the name enters it, matches nothing and falls back
+}{
+	{"res", "test.res", "", "", false},
+	{"item.$id", "test.item.42", "42", "", false},
+	{"item.$id", "test.item.get", "get", "", false},
+	{"deep.$id.sub", "test.deep.call.sub", "call", "", false},
+	{"item.$id", "test.item.new", "new", "", false},
+	{"$type.$id.info", "test.users.5.info", "5", "users", true},
+	{"$type.>", "test.users.7.more", "", "users", true},
 }
 
 var strPool = []string{"plain", `q"uote`, "uni-é-☃", "sp ace", `back\slash`, "<>&", ""}
@@ -100,7 +107,7 @@ func execute(sc Scenario, rng *rand.Rand) (rec, error) {
 			rn.mu.Lock()
 			rn.inv = kind
 			rn.seen = map[string]string{
-				"rname": r.ResourceName(), "id": r.PathParam("id"), "query": r.Query(), "cid": r.CID(),
+				"rname": r.ResourceName(), "id": r.PathParam("id"), "ptype": r.PathParam("type"), "group": r.Group(), "query": r.Query(), "cid": r.CID(),
 				"params": string(r.RawParams()), "token": string(r.RawToken()), "host": r.Host(), "remoteAddr": r.RemoteAddr(),
 				"uri": r.URI(), "http": fmt.Sprint(r.IsHTTP()), "method": r.Method(), "header": hdrString(r.Header()), "type": r.Type(),
 			}
@@ -193,6 +200,11 @@ func execute(sc Scenario, rng *rand.Rand) (rec, error) {
 			return map[string]int{"old": 1}, nil
 		}))
 	}
+	if nv.mount {
+		s.Route("users", func(m *res.Mux) {
+			m.Handle("$id.details", res.Call("m", func(r res.CallRequest) { r.OK(nil) }))
+		})
+	}
 	if pv := core.Catch(func() { s.Handle(nv.pattern, opts...) }); pv != nil {
 		return nil, fmt.Errorf("registration panicked: %v", pv)
 	}
@@ -202,9 +214,13 @@ func execute(sc Scenario, rng *rand.Rand) (rec, error) {
 			rn.mu.Lock()
 			rn.log = append(rn.log, []interface{}{"listen", ev.Name, rn.step, jj})
 			rn.mu.Unlock()
+			if jj == sc.Lpanic {
+				panic("listener panic")
+			}
 		})
 	}
-	s.Handle("probe", res.GetModel(func(r res.ModelRequest) { r.Model(map[string]int{"ok": 1}) }), res.Access(res.AccessGranted))
+	s.Handle("probe", res.GetModel(func(r res.ModelRequest) { r.Model(map[string]int{"ok": 1}) }), res.Access(res.AccessGranted),
+		res.Call("m", func(r res.CallRequest) { r.OK(nil) }), res.Auth("m", func(r res.AuthRequest) { r.OK(nil) }))
 	conn := rconn.New(nil)
 	if sc.PubFail {
 		conn.FailPub = func(subj string) error {
@@ -251,10 +267,15 @@ func execute(sc Scenario, rng *rand.Rand) (rec, error) {
 		}
 	}()
 	if sc.Pollute {
-		// a previous request whose payload is JSON but has a mistyped member: it is answered with an
-		// internal error and must leave no trace in the requests that follow
-		for k := 0; k < 3; k++ {
-			conn.Deliver("call.test.probe.m", fmt.Sprintf("inbox.pollute%d", k), []byte(`{"token":{"role":"admin"},"params":["stale"],"query":"stale=1","isHttp":true,"header":{"Stale":["1"]},"host":"stale.host","remoteAddr":"6.6.6.6","uri":"/stale","cid":42}`))
+		// previous requests must leave no trace in the request that follows: one whose payload is JSON
+		// but has a mistyped member (answered with an internal error), and valid ones with every field set
+		polluters := []string{
+			`{"token":{"role":"admin"},"params":["stale"],"query":"stale=1","isHttp":true,"header":{"Stale":["1"]},"host":"stale.host","remoteAddr":"6.6.6.6","uri":"/stale","cid":42}`,
+			`{"token":{"role":"admin"},"params":["stale"],"query":"stale=1","isHttp":true,"header":{"Stale":["1"]},"host":"stale.host","remoteAddr":"6.6.6.6","uri":"/stale","cid":"stalecid"}`,
+		}
+		for k := 0; k < 4; k++ {
+			subj := []string{"call.test.probe.m", "auth.test.probe.m", "access.test.probe", "get.test.probe"}[k]
+			conn.Deliver(subj, fmt.Sprintf("inbox.pollute%d", k), []byte(polluters[k%2]))
 			select {
 			case <-doneCh:
 			case <-time.After(2 * time.Second):
@@ -266,12 +287,19 @@ func execute(sc Scenario, rng *rand.Rand) (rec, error) {
 	name := nv.name
 	if !sc.Matched {
 		name = "test.nothing.here"
+		if nv.pattern == "$type.>" {
+			name = "test.solo" // the only kind of name that pattern does not match
+		}
 	}
 	subj := sc.Rtype + "." + name
 	if sc.Rtype == "call" || sc.Rtype == "auth" {
 		subj += "." + sc.Method
 	}
-	sent := map[string]string{"rname": name, "id": nv.id, "query": "", "cid": "", "params": "", "token": "", "host": "", "remoteAddr": "", "uri": "", "http": "false", "method": sc.Method, "header": "", "type": sc.Rtype}
+	group := name
+	if !sc.Matched {
+		group = ""
+	}
+	sent := map[string]string{"rname": name, "id": nv.id, "ptype": nv.ptype, "group": group, "query": "", "cid": "", "params": "", "token": "", "host": "", "remoteAddr": "", "uri": "", "http": "false", "method": sc.Method, "header": "", "type": sc.Rtype}
 	var data []byte
 	switch sc.Payload {
 	case "valid":
@@ -531,6 +559,14 @@ func abstract(m rconn.Msg, inbox, rname, cid string) (rec, string) {
 
 // doStep performs one script step on the request.
 func doStep(r *res.Request, st string) {
+	if strings.HasPrefix(st, "try-") {
+		// the handler recovers whatever the step panics with and keeps using the request
+		func() {
+			defer func() { recover() }()
+			doStep(r, strings.TrimPrefix(st, "try-"))
+		}()
+		return
+	}
 	switch st {
 	case "ok":
 		r.OK(map[string]interface{}{"a": 1, "s": `q"uo<te`})
@@ -590,6 +626,12 @@ func doStep(r *res.Request, st string) {
 		r.Timeout(1500 * time.Millisecond)
 	case "timeout-neg":
 		r.Timeout(-time.Second)
+	case "timeout-max":
+		r.Timeout(time.Duration(math.MaxInt64))
+	case "timeout-sub":
+		r.Timeout(1500 * time.Microsecond)
+	case "timeout-zero":
+		r.Timeout(0)
 	case "status":
 		r.SetResponseStatus(201)
 	case "status-redirect":
@@ -659,8 +701,9 @@ var replySteps = map[string][]string{
 	"new":    {"new", "new-bad", "notfound", "methodnotfound", "invalidparams", "error-res"},
 	"call":   {"ok", "ok-nil", "ok-bad", "resource", "resource-bad", "notfound", "methodnotfound", "invalidparams", "invalidparams-msg", "invalidquery", "error-res", "error-plain", "error-res-ctl", "error-plain-ctl", "invalidparams-ctl", "invalidquery-ctl"},
 }
-var otherSteps = []string{"ev-custom-bad", "ev-change-bad", "ev-add-bad", "timeout", "timeout-neg", "ev-custom", "ev-reserved", "ev-malformed", "ev-change", "ev-change-empty", "ev-add", "ev-add-neg", "ev-remove",
-	"ev-remove-neg", "ev-create", "ev-delete", "ev-reaccess", "ev-reset", "panic-res", "panic-err", "panic-str", "panic-int", "panic-nilerr", "panic-str-ctl"}
+var otherSteps = []string{"timeout-max", "timeout-sub", "timeout-zero", "ev-custom-bad", "ev-change-bad", "ev-add-bad", "timeout", "timeout-neg", "ev-custom", "ev-reserved", "ev-malformed", "ev-change", "ev-change-empty", "ev-add", "ev-add-neg", "ev-remove",
+	"ev-remove-neg", "ev-create", "ev-delete", "ev-reaccess", "ev-reset", "panic-res", "panic-err", "panic-str", "panic-int", "panic-nilerr", "panic-str-ctl",
+	"try-ev-custom", "try-ev-change", "try-ev-add", "try-ev-remove", "try-ev-create", "try-ev-delete", "try-ok", "try-panic-str", "try-ev-reserved"}
 
 func alphabet(sc *Scenario) []string {
 	k := sc.kind()
@@ -878,7 +921,7 @@ func ChildMain(scJSON string, seed int64) {
 		fmt.Println("bad scenario:", err)
 		os.Exit(3)
 	}
-	sc.Name = int(seed % 5)
+	sc.Name = int(seed % int64(len(nameVariants)))
 	r, err := execute(sc, rand.New(rand.NewSource(seed)))
 	if err != nil {
 		fmt.Println("REQSIM-ERROR:", err)
@@ -931,7 +974,7 @@ func Run(c *core.Ctx) {
 	if c.Thorough() {
 		cfg = "MCRequestThorough.cfg"
 	}
-	core.ModelMustHold(c, core.ModelCheck(c, "MCRequest", cfg, core.TLCOpts{Timeout: 15 * time.Minute}), "MCRequest")
+	core.ModelMustHold(c, core.ModelCheck(c, "MCRequest", cfg, core.TLCOpts{Timeout: 40 * time.Minute}), "MCRequest")
 
 	rng := rand.New(rand.NewSource(c.Seed))
 	var scs []Scenario
@@ -969,7 +1012,7 @@ func Run(c *core.Ctx) {
 		al := alphabet(&proto)
 		for _, a := range al {
 			for cfgI := 0; cfgI < 3; cfgI++ {
-				sc := base(k, true, []string{"valid", "empty", "valid"}[cfgI], cfgI != 1, true, []string{"model", "collection", "unset"}[cfgI], cfgI+rng.Intn(2), cfgI%3, rng.Intn(5))
+				sc := base(k, true, []string{"valid", "empty", "valid"}[cfgI], cfgI != 1, true, []string{"model", "collection", "unset"}[cfgI], cfgI+rng.Intn(2), cfgI%3, rng.Intn(len(nameVariants)))
 				sc.Script = []string{a}
 				if a == "tokenevent" {
 					sc.Payload = "valid"
@@ -980,8 +1023,26 @@ func Run(c *core.Ctx) {
 				if !c.Thorough() && rng.Intn(4) != 0 {
 					continue
 				}
-				sc := base(k, true, "valid", rng.Intn(2) == 0, true, []string{"model", "collection", "unset"}[rng.Intn(3)], rng.Intn(4), rng.Intn(3), rng.Intn(5))
+				sc := base(k, true, "valid", rng.Intn(2) == 0, true, []string{"model", "collection", "unset"}[rng.Intn(3)], rng.Intn(4), rng.Intn(3), rng.Intn(len(nameVariants)))
 				sc.Script = []string{a, b}
+				scs = append(scs, sc)
+			}
+		}
+	}
+	// (1b) a listener panics, the handler recovers and sends a second event: every pair of event steps
+	evs := []string{"ev-custom", "ev-change", "ev-add", "ev-remove", "ev-create", "ev-delete"}
+	for _, k := range kinds {
+		for _, a := range evs {
+			for _, b := range evs {
+				if !c.Thorough() && rng.Intn(3) != 0 {
+					continue
+				}
+				sc := base(k, true, "valid", false, true, []string{"model", "collection", "unset"}[rng.Intn(3)], rng.Intn(2), 2, rng.Intn(len(nameVariants)))
+				sc.Lpanic = 1 + rng.Intn(2)
+				sc.Script = []string{"try-" + a, b}
+				if rng.Intn(2) == 0 {
+					sc.Script = []string{"try-" + a, "try-" + b, replySteps[map[string]string{"auth": "call"}[k]+map[string]string{"access": "access", "get": "get", "call": "call", "new": "new"}[k]][0]}
+				}
 				scs = append(scs, sc)
 			}
 		}
@@ -1009,9 +1070,12 @@ func Run(c *core.Ctx) {
 	// (3) random longer scripts
 	for i := 0; i < c.Pick(1500, 30000); i++ {
 		k := kinds[rng.Intn(len(kinds))]
-		sc := base(k, rng.Intn(10) != 0, []string{"valid", "valid", "empty", "malformed"}[rng.Intn(4)], rng.Intn(2) == 0, rng.Intn(5) != 0, []string{"model", "collection", "unset"}[rng.Intn(3)], rng.Intn(4), rng.Intn(3), rng.Intn(5))
+		sc := base(k, rng.Intn(10) != 0, []string{"valid", "valid", "empty", "malformed"}[rng.Intn(4)], rng.Intn(2) == 0, rng.Intn(5) != 0, []string{"model", "collection", "unset"}[rng.Intn(3)], rng.Intn(4), rng.Intn(3), rng.Intn(len(nameVariants)))
 		sc.PubFail = rng.Intn(8) == 0
 		sc.Pollute = rng.Intn(4) == 0
+		if sc.Nl > 0 && rng.Intn(4) == 0 {
+			sc.Lpanic = 1 + rng.Intn(sc.Nl)
+		}
 		al := alphabet(&sc)
 		n := rng.Intn(5)
 		for j := 0; j < n; j++ {
@@ -1067,6 +1131,9 @@ func Run(c *core.Ctx) {
 			c.Violate(core.Violation{Signature: map[string]string{"engine": "reqsim", "kind": classify(m, which[j])},
 				Text: fmt.Sprintf("clause %s fails for request %v: handler %v, published %v, log %v, malformed %v", which[j], m["dbg"], m["inv"], m["out"], m["log"], m["malformed"]), Replay: m})
 		})
+	}
+	if c.Property == "C04" {
+		runLoad(c, c.Pick(24, 400))
 	}
 	c.Cover("traces_validated_against_impl", len(recs))
 	c.Cover("evaluations", len(recs))
